@@ -227,6 +227,10 @@ def run_case(case, r):
             darsia.FVTangentialFaceReconstruction(g), darsia.FVFullFaceReconstruction(g)
         if nf > 0:
             darsia.face_to_cell(g, np.ones(nf))
+            # evaluation points handed over the way the library's own consumers do it: the rows of
+            # the grid's corner table themselves (views, not copies)
+            for corner in g.cell_corners:
+                darsia.face_to_cell(g, np.ones(nf), corner if dim > 1 else float(corner[0]))
             darsia.cell_to_face_average(g, np.ones(shape), "harmonic")
         if ncell >= 2:
             import darsia.measure.wasserstein as W
